@@ -33,6 +33,13 @@ pub fn replicas_for(cfg: &Cfg, rng: &mut Rng) -> Vec<Cfg> {
         c.hash_xor = rng.next_u64() | 1;
         out.push(c);
     }
+    // L-replica: the same with the log level at trace (sodg evaluates the arguments of its
+    // debug!/trace! records only when the level admits them; what it answers must not depend on it)
+    {
+        let mut c = cfg.clone();
+        c.log_level = 5;
+        out.push(c);
+    }
     // K-replicas: other (N, capacity), at least as large as the plan's
     for _ in 0..2 {
         let mut c = cfg.clone();
@@ -97,6 +104,8 @@ pub fn decide(prop: &str, out: &RunOut, cfg: &Cfg, replicas: &[Cfg], stats: &mut
                     "identical"
                 } else if rc.contract.is_some() {
                     "K"
+                } else if rc.log_level != cfg.log_level {
+                    "L"
                 } else {
                     "H"
                 };
@@ -134,6 +143,8 @@ pub fn decide(prop: &str, out: &RunOut, cfg: &Cfg, replicas: &[Cfg], stats: &mut
                 "identical"
             } else if rc.contract.is_some() {
                 "K"
+            } else if rc.log_level != cfg.log_level {
+                "L"
             } else {
                 "H"
             };
